@@ -364,7 +364,7 @@ class Ceremony:
         coordinator does while collecting signatures)."""
         ch, w = self.ch, self.w
         if self.single:
-            return self.op_sign()
+            return self.sign_per_key()
         live = [c for c in self.copies if not c.sent and not getattr(c, 'parsed', False) and len(c.signers) < self.m]
         if not live:
             return self.op_sign()
@@ -386,6 +386,62 @@ class Ceremony:
                     c.lib_touched_after_edit = True
             w.outcome('signed', cid=c.cid, signers=sorted(c.signers), verified=bool(getattr(c.t, 'verified', False)))
             self.check_copy(c, 'sign')
+
+    def sign_per_key(self):
+        """Single-signer wallet, several inputs paid to different addresses: the transaction is signed with one address
+        key per call (in a drawn order, keys the transaction does not need are tolerated), not with the wallet at once."""
+        ch, w = self.ch, self.w
+        live = [c for c in self.copies if not c.sent and not getattr(c, 'parsed', False) and not c.signers and
+                not c.tampered and len(c.t.inputs) >= 2]
+        if not live:
+            # make one: an unsigned spend of (nearly) everything the wallet holds
+            party = self.parties[0]
+            ok, us = self.quiet(lambda: party['w'].utxos())
+            if not ok or len({u['address'] for u in us}) < 2:
+                return self.op_sign()
+            total = sum(u['value'] for u in us)
+            w.op('create', party=0, how='transaction_create', amount=total * 9 // 10, fee=3000, for_per_key=True)
+            ok, t = self.call('transaction_create', lambda: party['w'].transaction_create(
+                [(self.ext_addr, total * 9 // 10)], fee=3000, min_confirms=0))
+            if not ok or t is None or len(t.inputs) < 2:
+                return
+            c0 = Copy(t, 0, set(), via=('created',))
+            self.copies.append(c0)
+            w.outcome('copy', cid=c0.cid, n_in=len(t.inputs), signers=[], verified=bool(t.verified))
+            live = [c0]
+        c = live[ch.index('pk_copy', len(live))]
+        by_addr = {}
+        for chg in (0, 1):
+            for idx in range(0, 6):
+                path = "m/%d'/%d'/0'/%d/%d" % (PURPOSE[self.wt], self.coin, chg, idx)
+                node = self.masters[0].derive(path)
+                by_addr[ref_pub_to_address(node.pub, self.wt, self.network)] = node
+        nodes = []
+        for i in c.t.inputs:
+            n = by_addr.get(i.address)
+            if n is None:
+                return self.op_sign()
+            if n not in nodes:
+                nodes.append(n)
+        order = [nodes[i] for i in ch.perm('pk_order', len(nodes))]
+        # the plain Transaction (WalletTransaction.sign would add the wallet's own keys at the first call)
+        ok, plain = self.quiet(lambda: copy.deepcopy(c.t.to_transaction()))
+        if not ok:
+            return self.op_sign()
+        c = Copy(plain, c.holder, set(), via=c.via + ('plain',))
+        self.copies.append(c)
+        ok_all = True
+        for n in order:
+            w.op('sign', cid=c.cid, by='address_key', per_key=True)
+            k = self.BK.Key(n.priv.to_bytes(32, 'big').hex(), network=self.network, compressed=True)
+            ok, _ = self.call('sign_key', lambda: c.t.sign(k, fail_on_unknown_key=False))
+            ok_all = ok_all and ok
+            w.outcome('signed', cid=c.cid, verified=bool(getattr(c.t, 'verified', False)))
+        if ok_all:
+            c.signers.add(0)
+            if isinstance(c.t, self.BW.WalletTransaction):
+                c.lib_touched_after_edit = True
+        self.check_copy(c, 'sign')
 
     def add_holder(self, c):
         """WalletTransaction.sign(keys) also signs with the private keys the holding wallet has for the inputs."""
